@@ -126,24 +126,34 @@ def check_python(report):
     gst = m.member(meth, "grpc_stub_type")
     r.need(gst is not None, "Method.grpc_stub_type")
     r.instance("grpc_stub_type")
-    from ..pymodel import nmatch
-    ok = nmatch(m, "f\"{'stream' if self.client_streaming else 'unary'}_{'stream' if self.server_streaming else 'unary'}\"",
-                "gapic.schema.wrappers.Method.grpc_stub_type") is not None
-    r.check(ok, wr, gst.node.lineno, "Method.grpc_stub_type",
+    from ..pymodel import nmatch, nreturn, ladder
+    from ..pyeval import Evaluator, UNKNOWN
+    import itertools
+    # decided as a truth table over the two flags (so .format, an f-string, nested conditionals or a lookup table all read the same)
+    e = nreturn(m, m.func("gapic.schema.wrappers.Method.grpc_stub_type"))
+    r.need(e is not None, "Method.grpc_stub_type", "does not reduce to one expression")
+    bad = []
+    for cs, ss in itertools.product((False, True), repeat=2):
+        v = Evaluator({"self": {"client_streaming": cs, "server_streaming": ss}}).ev(e)
+        r.need(v is not UNKNOWN, "Method.grpc_stub_type", f"cannot evaluate `{ast.unparse(e)[:100]}` for client_streaming={cs}, server_streaming={ss}")
+        want = f"{'stream' if cs else 'unary'}_{'stream' if ss else 'unary'}"
+        if v != want:
+            bad.append(f"client_streaming={cs}, server_streaming={ss} -> {v!r} (expected {want!r})")
+    r.check(not bad, wr, gst.node.lineno, f"Method.grpc_stub_type: {'; '.join(bad)}"[:200],
             "must be '{client}_{server}' with client<-client_streaming, server<-server_streaming, 'stream' on the true arm")
     vd = m.member(meth, "void")
     r.instance("void")
-    r.check(vd is not None and "self.output.ident.proto == 'google.protobuf.Empty'" in ast.unparse(vd.node), wr,
+    r.check(vd is not None and nmatch(m, "self.output.ident.proto == 'google.protobuf.Empty'", "gapic.schema.wrappers.Method.void") is not None, wr,
             vd.node.lineno if vd else 0, "Method.void", "Method.void must compare the output type with google.protobuf.Empty")
     co = m.member(meth, "_client_output")
     r.need(co is not None, "Method._client_output")
-    body = [s for s in co.node.body if not (isinstance(s, ast.Expr) and isinstance(s.value, ast.Constant))]
     r.instance("_client_output")
-    first = body[0] if body else None
-    r.check(isinstance(first, ast.If) and ast.unparse(first.test) == "self.void" and any(isinstance(x, ast.Return) for x in first.body),
+    eco = nreturn(m, m.func("gapic.schema.wrappers.Method._client_output"))
+    r.need(eco is not None, "Method._client_output", "does not reduce to one conditional expression")
+    arms = ladder(eco)
+    r.check(bool(arms) and arms[0][0] is not None and ast.unparse(arms[0][0]) == "self.void",
             wr, co.node.lineno, "_client_output first test", "_client_output must test self.void first (None for Empty)")
-    last = body[-1] if body else None
-    r.check(isinstance(last, ast.Return) and ast.unparse(last.value) == "self.output", wr, co.node.lineno, "_client_output fallthrough",
+    r.check(bool(arms) and arms[-1][0] is None and ast.unparse(arms[-1][1]) == "self.output", wr, co.node.lineno, "_client_output fallthrough",
             "_client_output must fall through to self.output")
 
 
